@@ -72,7 +72,6 @@ Theorem C20_update_key_wf :
   forall (g : graph) (key : string) (meta : option string) (bs : list dblock),
          wf_b (gr_arena g) (gr_keys g) = true ->
          NoDup (map fst (gr_keys g)) ->
-         plain bs ->
          exists g' : graph,
            update_key g key meta bs = Ok g' /\
            wf_b (gr_arena g') (gr_keys g') = true /\ NoDup (map fst (gr_keys g')).
@@ -81,7 +80,6 @@ Check C20_update_key_wf :
   forall (g : graph) (key : string) (meta : option string) (bs : list dblock),
          wf_b (gr_arena g) (gr_keys g) = true ->
          NoDup (map fst (gr_keys g)) ->
-         plain bs ->
          exists g' : graph,
            update_key g key meta bs = Ok g' /\
            wf_b (gr_arena g') (gr_keys g') = true /\ NoDup (map fst (gr_keys g')).
@@ -89,9 +87,6 @@ Print Assumptions C20_update_key_wf.
 
 Theorem C20_history_wf :
   forall ops : list (string * option string * list dblock),
-         Forall
-           (fun op : string * option string * list dblock =>
-            Forall (fun b : dblock => plain_items b = true) (snd op)) ops ->
          exists g : graph,
            fold_left
              (fun (acc : res graph) (op : string * option string * list dblock) =>
@@ -100,9 +95,6 @@ Theorem C20_history_wf :
 Proof. exact HistoryClosed.history_wf_closed. Qed.
 Check C20_history_wf :
   forall ops : list (string * option string * list dblock),
-         Forall
-           (fun op : string * option string * list dblock =>
-            Forall (fun b : dblock => plain_items b = true) (snd op)) ops ->
          exists g : graph,
            fold_left
              (fun (acc : res graph) (op : string * option string * list dblock) =>
@@ -112,18 +104,12 @@ Print Assumptions C20_history_wf.
 
 Theorem C20_import_wf_keys :
   forall notes : list (string * option string * list dblock),
-         Forall
-           (fun n : string * option string * list dblock =>
-            Forall (fun b : dblock => plain_items b = true) (snd n)) notes ->
          NoDup (map note_key notes) ->
          exists g : graph,
            import notes = Ok g /\ wf_b (gr_arena g) (gr_keys g) = true /\ NoDup (map fst (gr_keys g)).
 Proof. exact HistoryClosed.import_wf_closed. Qed.
 Check C20_import_wf_keys :
   forall notes : list (string * option string * list dblock),
-         Forall
-           (fun n : string * option string * list dblock =>
-            Forall (fun b : dblock => plain_items b = true) (snd n)) notes ->
          NoDup (map note_key notes) ->
          exists g : graph,
            import notes = Ok g /\ wf_b (gr_arena g) (gr_keys g) = true /\ NoDup (map fst (gr_keys g)).
@@ -131,13 +117,7 @@ Print Assumptions C20_import_wf_keys.
 
 Theorem C20_history_from_import_wf :
   forall notes ops : list (string * option string * list dblock),
-         Forall
-           (fun n : string * option string * list dblock =>
-            Forall (fun b : dblock => plain_items b = true) (snd n)) notes ->
          NoDup (map note_key notes) ->
-         Forall
-           (fun op : string * option string * list dblock =>
-            Forall (fun b : dblock => plain_items b = true) (snd op)) ops ->
          exists g : graph,
            fold_left
              (fun (acc : res graph) (op : string * option string * list dblock) =>
@@ -146,13 +126,7 @@ Theorem C20_history_from_import_wf :
 Proof. exact HistoryClosed.history_from_import_wf_closed. Qed.
 Check C20_history_from_import_wf :
   forall notes ops : list (string * option string * list dblock),
-         Forall
-           (fun n : string * option string * list dblock =>
-            Forall (fun b : dblock => plain_items b = true) (snd n)) notes ->
          NoDup (map note_key notes) ->
-         Forall
-           (fun op : string * option string * list dblock =>
-            Forall (fun b : dblock => plain_items b = true) (snd op)) ops ->
          exists g : graph,
            fold_left
              (fun (acc : res graph) (op : string * option string * list dblock) =>
